@@ -239,6 +239,70 @@ def run_pairs(S, tier, ref):
         S.merge(T)
 
 
+MOD_MAIN = 'version: "3"\nmod units;\nenum Mode { off = 0, on = 1, }\nstruct Cell { t @0: Temp, m @1: Mode, }\nimpl can for Cell { id: 5, device: "bms", }\n'
+MOD_V1 = 'version: "3"\nstruct Temp { raw @0: u8, }\n'
+MOD_V2 = 'version: "3"\nenum Scale { c = 0, k = 1, }\nstruct Temp { raw @0: i16, scale @1: Scale, }\n'
+
+
+def run_module_edit(S, tier):
+    """'Regardless of what the process parsed before': a schema that imports a module is parsed and generated, the module
+    FILE is then edited, and the schema is parsed (through the entry point's default logger, as before) and generated
+    again - the second output must be what a parse that knows nothing of the first one gives for the files now on disk."""
+    from fcp.parser import get_fcp
+    from fcp.error import Logger
+
+    td = tempfile.mkdtemp(prefix="fcpmc-c17m-")
+    scratch = tempfile.mkdtemp(prefix="fcpmc-c17ms-")
+    try:
+        main = os.path.join(td, "main.fcp")
+        open(main, "w").write(MOD_MAIN)
+        open(os.path.join(td, "units.fcp"), "w").write(MOD_V2)
+        want = {}
+        with contextlib.redirect_stdout(io.StringIO()):
+            for g in GENERATORS:
+                want[g] = generate(g, get_fcp(main, Logger({})).unwrap(), scratch)
+        for first in GENERATORS:
+            S.count("states")
+            S.count("executions")
+            rd, wr = os.pipe()
+            pid = os.fork()
+            if pid == 0:
+                try:
+                    os.close(rd)
+                    res = {}
+                    try:
+                        open(os.path.join(td, "units.fcp"), "w").write(MOD_V1)
+                        with contextlib.redirect_stdout(io.StringIO()):
+                            generate(first, get_fcp(main).unwrap(), scratch)
+                            open(os.path.join(td, "units.fcp"), "w").write(MOD_V2)
+                            for g in GENERATORS:
+                                res[g] = first_diff(want[g], generate(g, get_fcp(main).unwrap(), scratch))
+                    except Exception as e:  # noqa
+                        res = {"<exception>": "%s: %s" % (type(e).__name__, str(e)[:200])}
+                    os.write(wr, json.dumps(res).encode())
+                finally:
+                    os._exit(0)
+            os.close(wr)
+            buf = b""
+            while True:
+                c = os.read(rd, 65536)
+                if not c:
+                    break
+                buf += c
+            os.close(rd)
+            os.waitpid(pid, 0)
+            res = json.loads(buf.decode() or '{"<exception>": "child died"}')
+            S.add("nontrivial", ("module-edit", first))
+            for g, d in sorted(res.items()):
+                S.count("transitions")
+                S.add("outcomes", ("module-edit", g, d is None))
+                if d is not None:
+                    S.violation("C17.history", "C17.history/output-depends-on-earlier-calls/%s/after=parse-of-the-module-before-it-was-edited" % g, {"files": {"main.fcp": MOD_MAIN, "units.fcp before": MOD_V1, "units.fcp after": MOD_V2}, "ops": ["parse+gen:%s (units.fcp before)" % first, "edit units.fcp", "parse+gen:%s" % g]}, expected="the files a fresh parse of the edited module gives", actual=d)
+    finally:
+        shutil.rmtree(td, ignore_errors=True)
+        shutil.rmtree(scratch, ignore_errors=True)
+
+
 def run(tier):
     common.bind_repo()
     r = Run("C17", tier)
@@ -247,6 +311,7 @@ def run(tier):
         ref = run_seeds(r.stats, tier, root)
         run_histories(r.stats, tier, ref)
         run_pairs(r.stats, tier, ref)
+        run_module_edit(r.stats, tier)
     finally:
         shutil.rmtree(root, ignore_errors=True)
     r.bounds = {"schemas": len(all_schemas()), "generators": list(GENERATORS), "seeds": 4 if tier == "quick" else 16, "history_depth": 3 if tier == "quick" else 4}
